@@ -633,7 +633,8 @@ def solve_gp(inst, m, options=None, kktsolver=None):
         kw['options'] = options
     if kktsolver is not None:
         kw['kktsolver'] = kktsolver
-    return solvers.gp(list(inst['K']), m['F'], m['g'], m['G'], m['h'], **kw)
+    K = m['K'] if 'K' in m else list(inst['K'])
+    return solvers.gp(K, m['F'], m['g'], m['G'], m['h'], **kw)
 
 
 def solve_op(inst, m, options=None, solver='default'):
